@@ -250,7 +250,9 @@ def _branch_obligations(eng, ev, st, at, length, pc_final, text):
         if text.strip() == "IR":
             # property C05: "a software interrupt counting as a call that returns there": the
             # pushed resume address (checked by the 'mem' obligation against the spec) is next
-            eng.prove("software-interrupt-resume-address", st.rd(st.get("S") + 2, 3, log=False) & M20 == nxt, detail=text)
+            eng.prove("software-interrupt-resume-address",
+                      z3.Implies(z3.And(st.defined) if st.defined else z3.BoolVal(True),
+                                 st.rd(st.get("S") + 2, 3, log=False) & M20 == nxt), detail=text)
             return
         eng.prove("no-branch=>falls-through", pc_final == nxt, detail=text)
         return
